@@ -309,4 +309,13 @@ theorem lookup_erase_other {n m : String} (h : m ≠ n) (s : Children) :
       · subst h2; simp [erase, lookup, h1]
       · simp [erase, lookup, h1, h2, ih]
 
+theorem isSorted_of_sorted : ∀ (l : List String), Sorted l → isSorted l = true
+  | [], _ => rfl
+  | [_], _ => rfl
+  | a :: b :: rest, h => by
+    have h' := List.pairwise_cons.mp h
+    have hab : a < b := h'.1 b List.mem_cons_self
+    simp only [isSorted, Bool.and_eq_true, Bool.not_eq_true', decide_eq_false_iff_not]
+    exact ⟨String.lt_asymm hab, isSorted_of_sorted (b :: rest) h'.2⟩
+
 end ScVerif.C20.Parent
